@@ -1,4 +1,367 @@
-//! groupmerge: not built yet.
-pub fn run(args: &vh_common::Args) {
-    vh_common::unknown(args)
+//! GroupMerge (C32): `p2panda_auth::group::crdt::state::{merge, create, add, remove, promote,
+//! demote}` (reached through the cfg-guarded `verif_api` hook) against spec/GroupAuth/GroupMerge.tla.
+//!
+//! * `replay`: every (s1, s2[, s3]) case TLC enumerated is executed on the real `merge`; the
+//!   results are compared with the transcription's and the three laws are checked directly on the
+//!   results of the real function.
+//! * `record`: seeded random runs on the real functions (a common base state, two branches that
+//!   diverge through add/remove/promote/demote, merges in both orders; plus random triples over a
+//!   larger domain), one event per call, validated by `Trace_GroupMerge.tla`.
+use std::collections::BTreeMap;
+
+use p2panda_auth::group::verif_api as state;
+use p2panda_auth::group::{GroupMembersState, GroupMembershipError};
+use p2panda_auth::traits::Conditions;
+use p2panda_auth::{Access, AccessLevel};
+use serde::{Deserialize, Serialize};
+use vh_common::{Args, Outcome, Rng, TraceWriter, Value, catch, json, read_ndjson, unknown};
+
+/// A totally ordered conditions type (derived order on the integer).
+#[derive(Clone, Debug, PartialEq, Eq, PartialOrd, Ord, Hash, Serialize, Deserialize)]
+pub struct Cond(pub u8);
+impl Conditions for Cond {}
+
+type St = GroupMembersState<String, Cond>;
+
+/// Canonical projection of a member state: (member_counter, access_counter, condition or -1, level 0..3).
+type Proj = BTreeMap<String, (u64, u64, i64, u8)>;
+
+pub fn run(args: &Args) {
+    match args.mode.as_str() {
+        "replay" => replay(args),
+        "record" => record(args),
+        _ => unknown(args),
+    }
+}
+
+pub fn level_name(l: u64) -> &'static str {
+    match l {
+        0 => "Pull",
+        1 => "Read",
+        2 => "Write",
+        3 => "Manage",
+        _ => panic!("bad level {l}"),
+    }
+}
+
+pub fn level_num(l: &AccessLevel) -> u8 {
+    match l {
+        AccessLevel::Pull => 0,
+        AccessLevel::Read => 1,
+        AccessLevel::Write => 2,
+        AccessLevel::Manage => 3,
+    }
+}
+
+pub fn access(c: i64, l: u64) -> Access<Cond> {
+    let a = match l {
+        0 => Access::pull(),
+        1 => Access::read(),
+        2 => Access::write(),
+        3 => Access::manage(),
+        _ => panic!("bad level {l}"),
+    };
+    if c >= 0 { a.with_conditions(Cond(c as u8)) } else { a }
+}
+
+pub fn access_proj(a: &Access<Cond>) -> (i64, u8) {
+    (a.conditions.as_ref().map(|c| c.0 as i64).unwrap_or(-1), level_num(&a.level))
+}
+
+/// `{"id": {"mc":..,"ac":..,"c":..,"l":..}}` (or `[]` / `{}` for the empty state) -> real state,
+/// built through the serde representation (fields are crate-private).
+fn state_from_json(v: &Value) -> St {
+    let mut members = serde_json::Map::new();
+    if let Some(obj) = v.as_object() {
+        for (id, m) in obj {
+            let c = m["c"].as_i64().expect("c");
+            members.insert(
+                id.clone(),
+                json!({
+                    "member_counter": m["mc"].as_u64().expect("mc"),
+                    "access": {
+                        "conditions": if c >= 0 { json!(c) } else { Value::Null },
+                        "level": level_name(m["l"].as_u64().expect("l")),
+                    },
+                    "access_counter": m["ac"].as_u64().expect("ac"),
+                }),
+            );
+        }
+    }
+    serde_json::from_value(json!({ "members": members })).expect("GroupMembersState from serde form")
+}
+
+fn proj(s: &St) -> Proj {
+    let v = serde_json::to_value(s).expect("serialise state");
+    let mut out = Proj::new();
+    for (id, m) in v["members"].as_object().expect("members") {
+        let c = m["access"]["conditions"].as_i64().unwrap_or(-1);
+        let l = match m["access"]["level"].as_str().expect("level") {
+            "Pull" => 0,
+            "Read" => 1,
+            "Write" => 2,
+            "Manage" => 3,
+            x => panic!("level {x}"),
+        };
+        out.insert(
+            id.clone(),
+            (m["member_counter"].as_u64().unwrap(), m["access_counter"].as_u64().unwrap(), c, l),
+        );
+    }
+    out
+}
+
+fn proj_from_json(v: &Value) -> Proj {
+    proj(&state_from_json(v))
+}
+
+fn proj_json(p: &Proj) -> Value {
+    let mut o = serde_json::Map::new();
+    for (id, (mc, ac, c, l)) in p {
+        o.insert(id.clone(), json!({"mc": mc, "ac": ac, "c": c, "l": l}));
+    }
+    Value::Object(o)
+}
+
+fn has_conditions(ps: &[&Proj]) -> bool {
+    ps.iter().any(|p| p.values().any(|m| m.2 >= 0))
+}
+
+fn merge(a: &St, b: &St) -> St {
+    state::merge(a.clone(), b.clone())
+}
+
+struct Merged {
+    m12: Proj,
+    m21: Proj,
+    m12_3: Proj,
+    m1_23: Proj,
+    m11: Proj,
+}
+
+fn all_merges(s1: &St, s2: &St, s3: &St) -> Merged {
+    let m12 = merge(s1, s2);
+    let m23 = merge(s2, s3);
+    Merged {
+        m21: proj(&merge(s2, s1)),
+        m12_3: proj(&merge(&m12, s3)),
+        m1_23: proj(&merge(s1, &m23)),
+        m11: proj(&merge(s1, s1)),
+        m12: proj(&m12),
+    }
+}
+
+/// The three laws on the results of the real function. Returns the violated law's signature.
+fn laws(m: &Merged, s1: &Proj, cond: bool) -> Vec<(&'static str, String)> {
+    let mut out = Vec::new();
+    if m.m12 != m.m21 {
+        out.push((
+            if cond { "merge-not-commutative:with-conditions" } else { "merge-not-commutative" },
+            format!("merge(s1,s2) = {:?} but merge(s2,s1) = {:?}", m.m12, m.m21),
+        ));
+    }
+    if m.m12_3 != m.m1_23 {
+        out.push((
+            if cond { "merge-not-associative:with-conditions" } else { "merge-not-associative" },
+            format!("merge(merge(s1,s2),s3) = {:?} but merge(s1,merge(s2,s3)) = {:?}", m.m12_3, m.m1_23),
+        ));
+    }
+    if &m.m11 != s1 {
+        out.push(("merge-not-idempotent", format!("merge(s1,s1) = {:?}, s1 = {:?}", m.m11, s1)));
+    }
+    out
+}
+
+fn replay(args: &Args) {
+    let cases = read_ndjson(args.input.as_ref().expect("--in"));
+    let mut out = Outcome::new(
+        args,
+        "every TLC-enumerated pair/triple of membership states executed on the real state::merge (both argument \
+         orders, both bracketings, self-merge); non-trivial = some member known to both s1 and s2 with differing \
+         member states; distinct by input",
+    );
+    for b in &cases {
+        out.eval();
+        let s1 = state_from_json(&b["s1"]["m"]);
+        let s2 = state_from_json(&b["s2"]["m"]);
+        let s3 = state_from_json(&b["s3"]["m"]);
+        let (p1, p2, p3) = (proj(&s1), proj(&s2), proj(&s3));
+        let cond = has_conditions(&[&p1, &p2, &p3]);
+        if p1.iter().any(|(id, m)| p2.get(id).is_some_and(|n| n != m)) {
+            out.mark_distinct(format!("{}|{}|{}", b["s1"]["m"], b["s2"]["m"], b["s3"]["m"]));
+        }
+        out.count(if cond { "cases_with_conditions" } else { "cases_without_conditions" });
+        let m = match catch(|| all_merges(&s1, &s2, &s3)) {
+            Ok(m) => m,
+            Err(p) => {
+                out.violation("C32", "merge-panics", p, b.clone());
+                continue;
+            }
+        };
+        let mut bad = false;
+        for (key, got) in [("m12", &m.m12), ("m21", &m.m21), ("m12_3", &m.m12_3), ("m1_23", &m.m1_23), ("m11", &m.m11)] {
+            if b.get(key).is_none() {
+                continue; // pair cases carry m12/m21/m11, triple cases the two bracketings
+            }
+            let expected = proj_from_json(&b[key]["m"]);
+            if got != &expected {
+                bad = true;
+                out.count("merge-differs-from-spec");
+                out.violation(
+                    "C32",
+                    if cond { "merge-differs-from-spec:with-conditions" } else { "merge-differs-from-spec" },
+                    format!("{key}: real merge gives {got:?}, specification says {expected:?}"),
+                    b.clone(),
+                );
+                break;
+            }
+        }
+        for (sig, detail) in laws(&m, &p1, cond) {
+            bad = true;
+            out.count(sig);
+            out.violation("C32", sig, detail, b.clone());
+        }
+        if !bad {
+            out.sample(b.clone());
+        }
+    }
+    out.write(args);
+}
+
+// ------------------------------------------------------------------------------------------ record
+
+fn random_access(rng: &mut Rng, conds: bool) -> (i64, u64) {
+    let c = if conds && rng.chance(2, 3) { rng.below(4) as i64 } else { -1 };
+    (c, rng.below(4))
+}
+
+fn random_state(rng: &mut Rng, ids: &[String], conds: bool) -> Value {
+    let mut o = serde_json::Map::new();
+    for id in ids {
+        if rng.chance(1, 4) {
+            continue;
+        }
+        let (c, l) = random_access(rng, conds);
+        // few distinct counter values so that ties (the interesting branch) are frequent
+        o.insert(id.clone(), json!({"mc": rng.range(1, 4), "ac": rng.below(3), "c": c, "l": l}));
+    }
+    Value::Object(o)
+}
+
+fn is_err<T>(r: &Result<T, GroupMembershipError<String>>) -> bool {
+    r.is_err()
+}
+
+/// One random membership action on `st`; returns the event and the new state (unchanged on error).
+fn random_op(rng: &mut Rng, branch: &str, st: &St, ids: &[String], conds: bool) -> (Value, St) {
+    let actor = rng.pick(ids).clone();
+    let member = rng.pick(ids).clone();
+    let (c, l) = random_access(rng, conds);
+    let acc = access(c, l);
+    let kind = *rng.pick(&["add", "add", "remove", "promote", "demote"]);
+    let res = match kind {
+        "add" => state::add(st.clone(), actor.clone(), member.clone(), acc),
+        "remove" => state::remove(st.clone(), actor.clone(), member.clone()),
+        "promote" => state::promote(st.clone(), actor.clone(), member.clone(), acc),
+        _ => state::demote(st.clone(), actor.clone(), member.clone(), acc),
+    };
+    let ok = !is_err(&res);
+    let after = res.unwrap_or_else(|_| st.clone());
+    (
+        json!({"ev": "Op", "b": branch, "kind": kind, "actor": actor, "member": member, "c": c, "l": l,
+               "ok": ok, "after": proj_json(&proj(&after))}),
+        after,
+    )
+}
+
+fn record(args: &Args) {
+    let mut rng = Rng::new(args.seed);
+    let n = if args.n > 0 { args.n } else { 100 };
+    let mut trace = TraceWriter::create(args.out.as_ref().expect("--out"));
+    let mut out = Outcome::new(
+        args,
+        "seeded random runs on the real state functions: create, two branches diverging by add/remove/promote/demote \
+         (authorized and unauthorized actors), merged in both orders; and random state triples (<= 6 members, counters \
+         1..4 / 0..2, conditions 0..3) through merge; one event per call, laws checked on the real results",
+    );
+    let ids: Vec<String> = ["a", "b", "c", "d", "e", "f"].iter().map(|s| s.to_string()).collect();
+    for run in 0..n {
+        trace.event(json!({"ev": "Reset", "run": run}));
+        let conds = run % 2 == 1;
+        // --- reachable states: common base, two branches, merge both ways
+        let k = rng.range(2, 4) as usize;
+        let mut initial = Vec::new();
+        let mut init_json = serde_json::Map::new();
+        for (j, id) in ids.iter().take(k).enumerate() {
+            let (c, l) = if j == 0 { (-1, 3) } else { random_access(&mut rng, conds) };
+            initial.push((id.clone(), access(c, l)));
+            init_json.insert(id.clone(), json!({"c": c, "l": l}));
+        }
+        let base: St = state::create(&initial);
+        trace.event(json!({"ev": "Create", "initial": Value::Object(init_json), "after": proj_json(&proj(&base))}));
+        let (mut b1, mut b2) = (base.clone(), base.clone());
+        for _round in 0..rng.range(1, 3) {
+            for _ in 0..rng.range(1, 5) {
+                out.eval();
+                let (ev, st) = random_op(&mut rng, "b1", &b1, &ids, conds);
+                out.count(if ev["ok"] == json!(true) { "op_ok" } else { "op_err" });
+                trace.event(ev);
+                b1 = st;
+            }
+            for _ in 0..rng.range(1, 5) {
+                out.eval();
+                let (ev, st) = random_op(&mut rng, "b2", &b2, &ids, conds);
+                out.count(if ev["ok"] == json!(true) { "op_ok" } else { "op_err" });
+                trace.event(ev);
+                b2 = st;
+            }
+            out.eval();
+            let empty = St::default();
+            match catch(|| all_merges(&b1, &b2, &empty)) {
+                Ok(m) => {
+                    let (p1, p2) = (proj(&b1), proj(&b2));
+                    let cond = has_conditions(&[&p1, &p2]);
+                    for (sig, detail) in laws(&m, &p1, cond) {
+                        out.violation("C32", sig, detail, json!({"kind": "pair", "s1": {"m": proj_json(&p1)}, "s2": {"m": proj_json(&p2)}, "s3": {"m": {}},
+                            "m12": {"m": proj_json(&m.m12)}, "m21": {"m": proj_json(&m.m21)}, "m12_3": {"m": proj_json(&m.m12_3)}, "m1_23": {"m": proj_json(&m.m1_23)}, "m11": {"m": proj_json(&m.m11)}}));
+                    }
+                    if p1 != p2 {
+                        out.mark_distinct(format!("{p1:?}|{p2:?}"));
+                    }
+                    trace.event(json!({"ev": "MergeBranches", "m12": proj_json(&m.m12), "m21": proj_json(&m.m21)}));
+                    // both branches continue from merge(b1, b2), as a replica would
+                    b1 = merge(&b1, &b2);
+                    b2 = b1.clone();
+                }
+                Err(p) => {
+                    out.violation("C32", "merge-panics", p, json!({"s1": proj_json(&proj(&b1)), "s2": proj_json(&proj(&b2))}));
+                    break;
+                }
+            }
+        }
+        // --- arbitrary states over a larger domain
+        for _ in 0..4 {
+            out.eval();
+            let (j1, j2, j3) = (random_state(&mut rng, &ids, conds), random_state(&mut rng, &ids, conds), random_state(&mut rng, &ids, conds));
+            let (s1, s2, s3) = (state_from_json(&j1), state_from_json(&j2), state_from_json(&j3));
+            match catch(|| all_merges(&s1, &s2, &s3)) {
+                Ok(m) => {
+                    let p1 = proj(&s1);
+                    for (sig, detail) in laws(&m, &p1, conds) {
+                        out.violation("C32", sig, detail, json!({"kind": "triple", "s1": {"m": j1}, "s2": {"m": j2}, "s3": {"m": j3},
+                            "m12": {"m": proj_json(&m.m12)}, "m21": {"m": proj_json(&m.m21)}, "m12_3": {"m": proj_json(&m.m12_3)}, "m1_23": {"m": proj_json(&m.m1_23)}, "m11": {"m": proj_json(&m.m11)}}));
+                    }
+                    out.mark_distinct(format!("{j1}|{j2}|{j3}"));
+                    let ev = json!({"ev": "Merge3", "s1": j1, "s2": j2, "s3": j3, "m12": proj_json(&m.m12), "m21": proj_json(&m.m21),
+                                    "m12_3": proj_json(&m.m12_3), "m1_23": proj_json(&m.m1_23), "m11": proj_json(&m.m11)});
+                    out.sample(ev.clone());
+                    trace.event(ev);
+                }
+                Err(p) => out.violation("C32", "merge-panics", p, json!({"s1": j1, "s2": j2, "s3": j3})),
+            }
+        }
+    }
+    let (events, runs) = trace.finish();
+    out.set_trace(events, runs);
+    out.write(args);
 }
